@@ -24,6 +24,8 @@ def gadgets():
         "overlap": [L([(-5, 0), (5, 0)]), L([(0, 3), (0, -0.0105)])],
         "double_overshoot": [L([(-5, 0), (5, 0)]), L([(-2, 3), (-2, -0.005)]), L([(2, 3), (2.5, -0.005)])],
         "overshoot_vnode": [L([(-5, 0), (5, 0)]), L([(-2, 3), (-2, -0.005)]), L([(5, 0), (7, 2)])],
+        # one trace (the first) in two junction defects: a three-trace crossing and, elsewhere, a crossing trace dangling 0.005 past it
+        "overshoot_multijunction": [L([(-5, 0), (5, 0)]), L([(2, 3), (2, -0.005)]), L([(-3, -2), (-3, 2)]), L([(-4, -1), (-2, 1)])],
         "multicross": [L([(-6, 0), (6, 0)]), L([(-5, -1), (-3, 1), (-1, -1), (1, 1), (3, -1)])],
         "sharp": [L([(0, 0), (5, 0), (0.5, 0.8)])],
         "null_none": [None],
@@ -34,6 +36,10 @@ def gadgets():
         "mls_unmergeable": [MultiLineString([[(0, 0), (1, 1)], [(3, 3), (4, 5)]])],
         "mls_branching": [MultiLineString([[(0, 0), (1, 1)], [(1, 1), (2, 3)], [(1, 1), (3, 0)]])],
         "z_line": [L([(-3, -3, 7.5), (3, 2, 8.0)])],
+        # a mergeable multi-part line that takes part in a node defect only AFTER it has been merged by the fix
+        "mls_vnode": [MultiLineString([[(0, 0), (1, 1)], [(1, 1), (2, 3)]]), L([(2, 3), (6, 3)])],
+        "mls_vnode_start": [MultiLineString([[(1, 1), (2, 3)], [(0, 0), (1, 1)]]), L([(0, 0), (-4, 1)])],
+        "mls_multijunction": [MultiLineString([[(-4, -4), (0, 0)], [(0, 0), (4, 4)]]), L([(-5, 0), (5, 0)]), L([(0, -5), (0, 5)])],
     }
 
 
@@ -78,7 +84,7 @@ def random_frame(rng, names=None, nmax=6, index_mode=None, with_stale=None):
     geoms = [geoms[i] for i in order]
     tags = [tags[i] for i in order]
     n = len(geoms)
-    mode = index_mode or rng.choice(["default"] * 6 + ["permuted", "strings", "offset"])
+    mode = index_mode or rng.choice(["default"] * 6 + ["permuted", "strings", "offset", "duplicates"])
     if mode == "default" or n < 3:
         index = list(range(n))
         mode = "default"
@@ -88,6 +94,8 @@ def random_frame(rng, names=None, nmax=6, index_mode=None, with_stale=None):
         index = [0] + mid + [n - 1]
     elif mode == "strings":
         index = [f"r{i}" for i in range(n)]
+    elif mode == "duplicates":  # repeated labels, e.g. frames concatenated without ignore_index
+        index = [i % max(2, n // 2) for i in range(n)]
     else:
         index = [i + 10 for i in range(n)]
     data = {"tag": tags, "num": [i * 0.5 for i in range(n)], "length": [float(i) for i in range(n)]}
